@@ -832,7 +832,7 @@ pub fn gen_enum_chaos(prop: &str, seed: u64, variant: u64) -> Plan {
 /// The documented defaults of the builder (README / builder docs): insert buffer 32*1024, get
 /// buffer 64, cleanup every 2 s, no metrics, internal cost counted.
 pub fn apply_defaults(p: &mut Plan) {
-    if matches!(p.cfg.keys, KeyMode::Typed { .. }) || p.has_tag("small_buffer") || p.has_tag("bulk") || p.prop == "C20" || p.prop == "C13" || p.prop == "C15" || p.prop == "C17" {
+    if matches!(p.cfg.keys, KeyMode::Typed { .. }) || p.has_tag("small_buffer") || p.has_tag("bulk") || p.prop == "C20" || p.prop == "C13" || p.prop == "C17" {
         return;
     }
     p.cfg.use_defaults = true;
